@@ -175,11 +175,13 @@ CLAIMED = {
  'C01': dict(
     text='Modular (assume-guarantee) unit contracts: gen_variable, gen_assignment, gen_conditional, gen_new, gen_variable_decl, '
          'gen_field_access, _gen_func_call (receivers, arity with defaults, explicit type arguments within bounds), gen_lambda, '
-         'gen_is_expr, _select_superclass (no final / unfinished superclass) and the generate_expr dispatcher are executed for real under a symbolic RNG (every outcome of every draw) on small symbolic scopes '
+         'gen_is_expr, _select_superclass (no final superclass, none of any symbolic set of classes under construction), the operator and array generators, '
+         '_gen_func_call_ref, _gen_func_ref and the generate_expr dispatcher (also on a class with a bounded parameter: narrowed types keep their arguments '
+         'within bounds) are executed for real under a symbolic RNG (every outcome of the first 3-6 draws, later draws take the first element) on small symbolic scopes '
          '(variable types, finality, nested scope, expected type and subtype flag are solver values) with the recursive generate_expr '
          'replaced by a contract stub; typing obligations on what each unit builds and on what it requests from the recursion are judged '
          'by the declarative relation. Whole-program well-typedness follows only by a paper induction over the generated tree; '
-         'function references, gen_class_decl bodies (fields, overriding) and the array/equality/comparison/logical generators are not built; '
+         'gen_func_decl bodies and gen_class_decl members (fields, overriding) are not built; '
          'paths on which a unit would create a new class or function give no verdict.',
     note='trusted: contract of generate_expr, declarative relation, reduced built-in pools; composition, Context bookkeeping across units and unbuilt units are outside the claim',
     technique='assume-guarantee unit contracts: bounded symbolic execution of generator units under a symbolic RNG with a contract stub for the recursion',
@@ -198,7 +200,8 @@ CLAIMED = {
     text='Decided half: (a) no generator unit raises for any RNG outcome, scope and value of the depth counter (symbolic, max_depth=2), and '
          'the recursion measure holds (depth restored on exit, every recursive request deeper than the entry or with the variable generator '
          'excluded, only leaf generators at max depth, constructor arguments cut beyond twice max depth); (b) no pipeline stage (translate, '
-         'erase, overwrite under a symbolic RNG, translate) raises on the generated members of the families. NOT decided: termination and '
+         'erase, overwrite under a symbolic RNG, translate) raises on the generated members of the families and on the template programs; (c) the identifier '
+         'pool survives every history of word()/reset_word_pool() calls on a reduced pool, and gen_type_params does not raise for any requested count within its precondition. NOT decided: termination and '
          'nesting bound of whole Generator.generate() runs, wall-clock timeouts.',
     note='half of the property only; the undecided half is stated in the evidence and in DESIGN.md',
     technique='bounded symbolic execution: exception freedom + recursion measure of generator units (symbolic RNG and depth), exception freedom of pipeline stages over families',
